@@ -424,6 +424,9 @@ class Consumer(object):
         # Are we waiting for a request to come back?
         if self._request_d:
             self._request_d.cancel()
+            # It may already have fired (a reply parked behind the processor):
+            # don't let a stale handle block the fetcher after a restart.
+            self._request_d = None
         # Are we working our way through a block of messages?
         if self._msg_block_d:
             # Need to add a cancel handler...
